@@ -143,6 +143,65 @@ def dist_checks(name, d, rng):
     return out
 
 
+def keyed_builders():
+    """(name, mk(key) -> bijection, cond_shape): constructors whose parameters depend on the key / on user modules WITH array parameters"""
+    import flowjax.bijections as B
+    from flowjax import flows
+    from flowjax.distributions import StandardNormal
+
+    def lin(k, i, o):
+        return eqx.nn.Linear(i, o, key=k)
+
+    yield "AdditiveCondition(eqx.nn.Linear)", (lambda k: B.AdditiveCondition(lin(k, 2, 3), (3,), (2,))), (2,)
+    yield "AdditiveCondition(eqx.nn.MLP)", (lambda k: B.AdditiveCondition(eqx.nn.MLP(2, 3, 4, 1, key=k), (3,), (2,))), (2,)
+    yield "EmbedCondition(Linear)", (lambda k: B.EmbedCondition(B.AdditiveCondition(lin(k, 2, 3), (3,), (2,)), lin(jr.fold_in(k, 1), 4, 2), (4,))), (4,)
+    yield "Coupling", (lambda k: B.Coupling(k, transformer=B.Affine(), untransformed_dim=1, dim=3, cond_dim=2, nn_width=4, nn_depth=1)), (2,)
+    yield "MaskedAutoregressive", (lambda k: B.MaskedAutoregressive(k, transformer=B.Affine(), dim=3, cond_dim=2, nn_width=4, nn_depth=1)), (2,)
+    yield "Planar", (lambda k: B.Planar(k, dim=3, cond_dim=2, negative_slope=0.1, width_size=4, depth=1)), (2,)
+    yield "Planar(unconditional)", (lambda k: B.Planar(k, dim=3)), None
+    yield "BlockAutoregressiveNetwork", (lambda k: B.BlockAutoregressiveNetwork(k, dim=2, cond_dim=2, depth=1, block_dim=2)), (2,)
+    yield "coupling_flow", (lambda k: flows.coupling_flow(k, base_dist=StandardNormal((3,)), cond_dim=2, flow_layers=2, nn_width=4).bijection), (2,)
+    yield "masked_autoregressive_flow", (lambda k: flows.masked_autoregressive_flow(k, base_dist=StandardNormal((3,)), flow_layers=2, nn_width=4).bijection), None
+    yield "planar_flow", (lambda k: flows.planar_flow(k, base_dist=StandardNormal((3,)), flow_layers=2, negative_slope=0.1).bijection), None
+    yield "planar_flow(tanh, invert=False)", (lambda k: flows.planar_flow(k, base_dist=StandardNormal((3,)), flow_layers=2, invert=False).bijection), None
+
+
+def perturb(obj, key):
+    """move every inexact leaf away from its initial value (final conditioner layers are zero-initialised)"""
+    leaves, td = jax.tree_util.tree_flatten(obj)
+    ks = jr.split(key, len(leaves))
+    return jax.tree_util.tree_unflatten(td, [l + 0.3 * jr.normal(k, l.shape, l.dtype) if eqx.is_inexact_array(l) else l for l, k in zip(leaves, ks)])
+
+
+def fresh_model_checks(rng):
+    """leaf serialisation of a trained model A, restored into a FRESHLY CONSTRUCTED model B (different key): B must behave bit-identically to A
+    -> list of (name, check, ok, detail, nontrivial)"""
+    out = []
+    for name, mk, cs in keyed_builders():
+        try:
+            s1, s2 = rng.randrange(2 ** 30), rng.randrange(2 ** 30)
+            a = perturb(mk(jr.PRNGKey(s1)), jr.PRNGKey(s1 + 1))
+            b = mk(jr.PRNGKey(s2))
+            x = jr.normal(jr.PRNGKey(s1 + 2), a.shape)
+            cond = None if cs is None else jr.normal(jr.PRNGKey(s1 + 3), cs)
+            buf = io.BytesIO()
+            eqx.tree_serialise_leaves(buf, a)
+            buf.seek(0)
+            r = eqx.tree_deserialise_leaves(buf, b)
+            ya, yb, yr = (o.transform_and_log_det(x, cond) for o in (a, b, r))
+            out.append((name, "fresh:transform_and_log_det", same(yr, ya, 0.0), "", not same(yb, ya, 0.0)))
+            fa, fr = eqx.filter_jit(a.transform_and_log_det)(x, cond), eqx.filter_jit(r.transform_and_log_det)(x, cond)
+            out.append((name, "fresh:jit", same(fr, fa, 0.0), "", True))
+            try:
+                ia = a.inverse_and_log_det(x, cond)
+            except NotImplementedError:
+                continue
+            out.append((name, "fresh:inverse_and_log_det", same(r.inverse_and_log_det(x, cond), ia, 0.0), "", True))
+        except Exception as ex:  # a constructor or the serialiser raising is itself a failure of the round trip
+            out.append((name, "fresh:exception", False, type(ex).__name__ + ": " + str(ex)[:160], True))
+    return out
+
+
 def extra_dists(rng):
     k = jr.PRNGKey(3)
     base = D.StandardNormal((3,))
@@ -218,6 +277,11 @@ def corr(c, tier, rng):
             lines.append(f"tracesafe AbstractDistribution {meth}")
             wants.append(("method", [(f"{meth}:{r[0]}", r[1], r[2]) for r in res if r[0].startswith(meth)]))
             infos.append(dict(object=name, cls="AbstractDistribution", method=meth))
+    for name, chk, ok, detail, nontrivial in fresh_model_checks(rng):
+        c.case((name, chk), nontrivial)
+        c.count("fresh-model-serialisation")
+        if not ok:
+            c.mismatch("serialise-into-fresh-model", object=name, check=chk, detail=detail)
     outs = vlib.run_model(lines)
     for line, got, want, info in zip(lines, outs, wants, infos):
         if want is None:
@@ -251,6 +315,9 @@ def corr(c, tier, rng):
 def search(hints, tier, rng):
     """the property's own oracle on the real code only: jit / vmap / repeat / flatten / serialise transparency"""
     wit = []
+    for name, chk, ok, detail, _ in fresh_model_checks(rng):
+        if not ok:
+            wit.append(dict(key=f"{name}|{chk}", object=name, check=chk, detail=detail, kind="fresh"))
     zoo = c13.zoo()
     for name in zoo:
         obj = zoo[name]()
@@ -274,4 +341,6 @@ def replay(w):
     if w.get("kind") == "bijection":
         obj = c13.zoo()[w["object"]]()
         return any(chk == w["check"] and not ok for chk, ok, _ in method_checks(w["object"], obj, rng))
+    if w.get("kind") == "fresh":
+        return any(n == w["object"] and chk == w["check"] and not ok for n, chk, ok, _, _ in fresh_model_checks(rng))
     return bool(search({}, "quick", rng))
